@@ -1097,7 +1097,7 @@ fn builtin_sort(args: Vec<Rc<Object>>) -> Result<Rc<Object>, String> {
             arr.elements.borrow_mut().sort();
             Ok(Rc::clone(&args[0]))
         }
-        _ => Ok(Rc::new(Object::Null)),
+        _ => Err(String::from("argument should be an array")),
     }
 }
 
@@ -1111,7 +1111,7 @@ fn builtin_chars(args: Vec<Rc<Object>>) -> Result<Rc<Object>, String> {
         Object::Str(s) => Ok(Rc::new(Object::Arr(Rc::new(Array::new(
             s.chars().map(|c| Rc::new(Object::Char(c))).collect(),
         ))))),
-        _ => Ok(Rc::new(Object::Null)),
+        _ => Err(String::from("argument should be a string")),
     }
 }
 
